@@ -43,11 +43,13 @@ def main():
         print(name, "incomplete seed directory", os.listdir(src))
         return 2
     demo = os.path.join(src, sorted(demos)[0])
-    tmp = tempfile.mkdtemp(prefix="seedeval-")
+    # everything happens in the sub-agent's own scratch worktree (demos may insist on that path)
+    tmp = "/tmp/seed-%s" % a.prop
+    evtmp = tempfile.mkdtemp(prefix="seedeval-")
     meta = {"seed": name, "property": a.prop, "ran": []}
     try:
-        rc, out = sh("git -C /repo archive HEAD | tar -x -C %s" % tmp)
-        rc, out = sh("git apply --whitespace=nowarn %s" % patch, cwd=tmp) if False else sh("patch -p1 -s < %s" % patch, cwd=tmp)
+        sh("git checkout -- dali", cwd=tmp)
+        rc, out = sh("git apply --whitespace=nowarn %s" % patch, cwd=tmp)
         meta["patch_applies"] = rc == 0
         if rc != 0:
             print(name, "patch does not apply:", out[-300:])
@@ -57,27 +59,29 @@ def main():
                      "--continue-on-collection-errors 2>&1 | tail -3", cwd=tmp, env=env)
         meta["suite_with_change"] = out.strip().splitlines()[-1] if out.strip() else ""
         suite_ok = "110 passed" in out and "failed" not in out.split("110 passed")[-1]
-        meta["ran"].append("existing suite on the patched copy: %s" % meta["suite_with_change"])
+        meta["ran"].append("existing suite in the scratch worktree with the patch applied: %s"
+                           % meta["suite_with_change"])
         runner = "/venv/bin/python -m pytest -q -p no:cacheprovider %s" if os.path.basename(demo).startswith("test_") \
             else "/venv/bin/python %s"
         rc_with, out_with = sh(runner % demo, cwd=tmp, env=env, timeout=300)
-        env2 = dict(os.environ, PYTHONPATH="/repo", PYTHONDONTWRITEBYTECODE="1")
-        rc_without, out_without = sh(runner % demo, cwd="/tmp", env=env2, timeout=300)
-        meta["demo_with_change_exit"] = rc_with
-        meta["demo_without_change_exit"] = rc_without
-        meta["ran"].append("demo with change: exit %d; without: exit %d" % (rc_with, rc_without))
-        ok = suite_ok and rc_with != 0 and rc_without == 0
-        meta["confirmed"] = ok
         results = {}
         for prop in [a.prop] + a.also:
-            env3 = dict(os.environ, VERIF_REPO=tmp, VERIF_EVIDENCE_DIR=os.path.join(tmp, "_ev"),
-                        VERIF_REPLAY_DIR=os.path.join(tmp, "_rp"), PYTHONDONTWRITEBYTECODE="1")
+            env3 = dict(os.environ, VERIF_REPO=tmp, VERIF_EVIDENCE_DIR=os.path.join(evtmp, "_ev"),
+                        VERIF_REPLAY_DIR=os.path.join(evtmp, "_rp"), PYTHONDONTWRITEBYTECODE="1")
             env3.pop("PYTHONPATH", None)
             t = time.time()
             rc, out = sh("%s/check %s --tier %s" % (VERIF, prop, a.tier), cwd=VERIF, env=env3, timeout=6000)
             lines = [l for l in out.splitlines() if l.startswith(("VIOLATION", "  case", "INCONCLUSIVE", "KNOWN"))]
             results[prop] = {"exit": rc, "seconds": round(time.time() - t, 1), "first_lines": lines[:4]}
-            meta["ran"].append("./check %s --tier %s against the patched copy: exit %d" % (prop, a.tier, rc))
+            meta["ran"].append("./check %s --tier %s with VERIF_REPO=<patched scratch worktree>: exit %d"
+                               % (prop, a.tier, rc))
+        sh("git checkout -- dali", cwd=tmp)
+        rc_without, out_without = sh(runner % demo, cwd=tmp, env=env, timeout=300)
+        meta["demo_with_change_exit"] = rc_with
+        meta["demo_without_change_exit"] = rc_without
+        meta["ran"].append("demo with change: exit %d; after undoing it: exit %d" % (rc_with, rc_without))
+        ok = suite_ok and rc_with != 0 and rc_without == 0
+        meta["confirmed"] = ok
         meta["checks"] = results
         meta["caught_by"] = [p for p, r in results.items() if r["exit"] == 1]
         notes = os.path.join(src, "notes.txt")
@@ -97,7 +101,8 @@ def main():
             json.dump(meta, open(os.path.join(dst, "meta.json"), "w"), indent=1)
         return 0
     finally:
-        shutil.rmtree(tmp, ignore_errors=True)
+        sh("git checkout -- dali", cwd=tmp)
+        shutil.rmtree(evtmp, ignore_errors=True)
 
 
 if __name__ == "__main__":
